@@ -2,9 +2,9 @@
 specification of the entity the property texts (C01, C02) prescribe.  Used as the search oracle on the
 implementation; every random choice comes from the rng passed in."""
 
-NAMES = ["id", "a", "b2", "user_id", "Name", "created_at", "amount", "x_1", "col", "ZIP", "descr", "k9", "val", "ts_col", "qty"]
+NAMES = ["id", "a", "b2", "settings", "dropped", "use_count", "grants", "user_id", "Name", "created_at", "amount", "x_1", "col", "ZIP", "descr", "k9", "val", "ts_col", "qty"]
 KW_NAMES = ["comment", "order", "start", "cache", "type", "schema", "default", "key", "table", "add", "no", "data", "location", "format"]
-TABLE_NAMES = ["t", "orders", "Users", "line_items", "tbl_2", "A"]
+TABLE_NAMES = ["t", "orders", "Users", "line_items", "tbl_2", "A", "settings", "created_items", "dropbox", "altered_rows", "users_go"]
 SCHEMAS = [None, None, "s", "public", "Dev"]
 TYPES1 = ["int", "INT", "integer", "bigint", "text", "date", "timestamp", "boolean", "float", "uuid", "Serial"]
 TYPES_SIZED = ["varchar", "VARCHAR", "char", "decimal", "numeric", "NUMBER", "varchar2"]
